@@ -17,8 +17,8 @@ import (
 func init() { emitters["WbStores"] = emitWbStores }
 
 type wbRow struct {
-	fn, kind, mnem, src, dst, class string
-	line                            int
+	fn, kind, mnem, src, dst, class, cond string
+	line                                  int
 }
 
 func emitWbStores(w *world) (string, error) {
@@ -73,45 +73,77 @@ func emitWbStores(w *world) (string, error) {
 				}
 				name := short + "." + strings.TrimPrefix(recvT, "*") + "." + fd.Name.Name
 				var ferr error
-				ast.Inspect(fd.Body, func(n ast.Node) bool {
-					ce, ok := n.(*ast.CallExpr)
-					if !ok {
-						return true
+				// functions of this receiver that take obj.Addr parameters: their calls are recorded with the operand classes
+				var visit func(n ast.Node, cond string)
+				visit = func(n ast.Node, cond string) {
+					if n == nil || ferr != nil {
+						return
 					}
-					sel, ok := ce.Fun.(*ast.SelectorExpr)
-					if !ok {
-						return true
-					}
-					line := p.Fset.Position(ce.Pos()).Line
-					switch sel.Sel.Name {
-					case "WritePtrAX", "WriteRecNotAX", "WriteRecNotAX_":
-						var args []string
-						for _, a := range ce.Args {
-							args = append(args, types.ExprString(a))
+					if is, ok := n.(*ast.IfStmt); ok {
+						visit(is.Init, cond)
+						visit(is.Cond, cond)
+						c := types.ExprString(is.Cond)
+						visit(is.Body, c)
+						if is.Else != nil {
+							visit(is.Else, "!("+c+")")
 						}
-						rows = append(rows, wbRow{name, "Barrier", sel.Sel.Name, strings.Join(args, ", "), "", "", line})
-					case "Emit":
-						if len(ce.Args) < 3 {
+						return
+					}
+					if ce, ok := n.(*ast.CallExpr); ok {
+						if sel, ok := ce.Fun.(*ast.SelectorExpr); ok {
+							line := p.Fset.Position(ce.Pos()).Line
+							switch sel.Sel.Name {
+							case "WritePtrAX", "WriteRecNotAX", "WritePtr":
+								var args []string
+								for _, a := range ce.Args {
+									args = append(args, types.ExprString(a))
+								}
+								rows = append(rows, wbRow{name, "Barrier", sel.Sel.Name, strings.Join(args, ", "), "", "", cond, line})
+							case "Emit":
+								if len(ce.Args) >= 3 {
+									tv, ok := p.TypesInfo.Types[ce.Args[0]]
+									dst := ce.Args[len(ce.Args)-1]
+									cl := memClass(p, dst, pkgOps, params)
+									if !ok || tv.Value == nil {
+										if cl != "" {
+											ferr = fmt.Errorf("%s: Emit with a non-constant mnemonic and a memory destination", p.Fset.Position(ce.Pos()))
+										}
+									} else {
+										mn := strings.Trim(tv.Value.ExactString(), "\"")
+										if cl != "" && (strings.HasPrefix(mn, "MOV") || mn == "XCHGQ" || strings.HasPrefix(mn, "CMPXCHG") || strings.HasPrefix(mn, "VMOV")) {
+											rows = append(rows, wbRow{name, "Store", mn, types.ExprString(ce.Args[1]), types.ExprString(dst), cl, cond, line})
+										}
+									}
+								}
+							default:
+								// a call of another emitting method that takes operands: record the classes of the memory operands passed
+								if id, ok := sel.X.(*ast.Ident); ok && id.Name == "self" {
+									var cls []string
+									has := false
+									for _, a := range ce.Args {
+										c := memClass(p, a, pkgOps, params)
+										if c != "" {
+											has = true
+										}
+										cls = append(cls, types.ExprString(a)+"="+c)
+									}
+									if has {
+										rows = append(rows, wbRow{name, "Call", sel.Sel.Name, strings.Join(cls, "; "), "", "", cond, line})
+									}
+								}
+							}
+						}
+					}
+					// generic traversal of children
+					ast.Inspect(n, func(c ast.Node) bool {
+						if c == n || c == nil {
 							return true
 						}
-						tv, ok := p.TypesInfo.Types[ce.Args[0]]
-						if !ok || tv.Value == nil {
-							ferr = fmt.Errorf("%s: Emit with a non-constant mnemonic", p.Fset.Position(ce.Pos()))
-							return false
-						}
-						mn := strings.Trim(tv.Value.ExactString(), "\"")
-						if !strings.HasPrefix(mn, "MOV") && mn != "XCHGQ" && !strings.HasPrefix(mn, "CMPXCHG") && !strings.HasPrefix(mn, "VMOV") {
-							return true
-						}
-						dst := ce.Args[len(ce.Args)-1]
-						cl := memClass(p, dst, pkgOps, params)
-						if cl == "" {
-							return true // register destination
-						}
-						rows = append(rows, wbRow{name, "Store", mn, types.ExprString(ce.Args[1]), types.ExprString(dst), cl, line})
-					}
-					return true
-				})
+						visit(c, cond)
+						return false
+					})
+				}
+				visit(fd.Body, "")
 				if ferr != nil {
 					return "", ferr
 				}
@@ -126,13 +158,13 @@ func emitWbStores(w *world) (string, error) {
 	})
 	var b strings.Builder
 	b.WriteString("From Coq Require Import String List.\nImport ListNotations.\nOpen Scope string_scope.\n\n")
-	b.WriteString("(* (emitting function, (kind, (mnemonic | helper, (source | helper arguments, (destination, class))))) *)\n")
-	b.WriteString("Definition wb_rows : list (string * (string * (string * (string * (string * string))))) :=\n  [")
+	b.WriteString("(* (emitting function, (kind, (mnemonic | helper | callee, (source | arguments, (destination, (class, enclosing if-condition)))))) *)\n")
+	b.WriteString("Definition wb_rows : list (string * (string * (string * (string * (string * (string * string)))))) :=\n  [")
 	for i, r := range rows {
 		if i > 0 {
 			b.WriteString(";\n   ")
 		}
-		fmt.Fprintf(&b, "(%s, (%s, (%s, (%s, (%s, %s)))))", coqStr(r.fn), coqStr(r.kind), coqStr(r.mnem), coqStr(r.src), coqStr(r.dst), coqStr(r.class))
+		fmt.Fprintf(&b, "(%s, (%s, (%s, (%s, (%s, (%s, %s))))))", coqStr(r.fn), coqStr(r.kind), coqStr(r.mnem), coqStr(r.src), coqStr(r.dst), coqStr(r.class), coqStr(r.cond))
 	}
 	b.WriteString("].\n")
 	return b.String(), nil
